@@ -103,7 +103,7 @@ class Run:
             try:
                 for line in p.stdout:
                     log.write(line)
-                    if len(lines) < 20000:
+                    if len(lines) < 200000:
                         lines.append(line.rstrip("\n"))
                     # a behaviour dump of a long trace is useless and huge: stop reading
                     if line.startswith("Error: The behavior up to this point is:") and "Trace_" in module:
@@ -150,6 +150,7 @@ class Run:
         st, tr = self._counts(lines)
         ok = any("Model checking completed. No error has been found." in ln for ln in lines)
         violated = [ln for ln in lines if re.match(r"^Error: (Invariant|Action property|Temporal properties).*violated", ln)]
+        self.last_prints = [ln for ln in lines if ln.startswith('<<"')]
         rec = {"module": module, "cfg": cfg, "states": st, "transitions": tr, "ok": ok,
                "violated": violated[:3], "expect_violation": expect_violation or ""}
         self.mc_runs.append(rec)
